@@ -276,12 +276,12 @@ func (res *CheckResult) checkFnCallArity(fnCall *parser.FnCall) {
 		}
 
 		for index, arg := range validArgs {
-			lastElemIndex := len(sig) - 1
-			if index > lastElemIndex {
-				break
+			// the arguments in excess are visited as well
+			// (otherwise their variables would neither be resolved nor marked as used)
+			type_ := TypeAny
+			if index < len(sig) {
+				type_ = sig[index]
 			}
-
-			type_ := sig[index]
 			res.checkExpression(arg, type_)
 		}
 	} else {
